@@ -571,7 +571,7 @@ def run_shard(spec, seed):
 
 
 def plan(tier):
-    return progrun.plan_cases(tier, 1600, 64000)
+    return progrun.plan_cases(tier, 4000, 160000)
 
 
 _REQ = ["acc:" + n for n in ACCESSORS] + [
